@@ -2177,3 +2177,56 @@ func (e *Env) spacingFuncs(pkg *packages.Package) []*ast.FuncDecl {
 	}
 	return fds
 }
+
+// RPackageCommentGap (R-CURSOR): behind the decoration lists it renders, applyDecorations moves
+// the cursor only off a fresh line. A position inserted unconditionally after the file's Start
+// decorations (the header comments) separates a comment from the package clause that follows it
+// on the same line: `/* … */package p` is restored with the keyword one byte behind the comment,
+// which is go/printer's test for a doc comment — a multi-line comment in that place is
+// re-formatted (its text changes). Every cursor advance after the loop over the decorations must
+// be guarded by a comparison of the cursor with the fresh-line marker.
+func (e *Env) RPackageCommentGap() {
+	pkg := e.Prog.Pkg(load.PkgDecorator)
+	info := pkg.TypesInfo
+	c := e.Sib.Ctx[load.PkgDecorator]
+	fd := load.FuncDecl(pkg, "FileRestorer", "applyDecorations")
+	if fd == nil || fd.Body == nil {
+		return
+	}
+	seenLoop := false
+	n := 0
+	for _, st := range fd.Body.List {
+		if _, ok := st.(*ast.RangeStmt); ok {
+			seenLoop = true
+			continue
+		}
+		if !seenLoop {
+			continue
+		}
+		ast.Inspect(st, func(nd ast.Node) bool {
+			var at ast.Node
+			switch v := nd.(type) {
+			case *ast.IncDecStmt:
+				if e.isRestorerField(info, ast.Unparen(v.X), "cursor") {
+					at = v
+				}
+			case *ast.AssignStmt:
+				for _, l := range v.Lhs {
+					if e.isRestorerField(info, ast.Unparen(l), "cursor") {
+						at = v
+					}
+				}
+			}
+			if at == nil {
+				return true
+			}
+			n++
+			pc, _ := pathCond(c, fd.Body.List, at)
+			guarded := strings.Contains(pc, "cursorAtNewLine")
+			e.Run.Check("R-CURSOR", "applyDecorations: no position is inserted between a comment and the token that follows it on the same line", e.Prog.Pos(at.Pos()), guarded,
+				"after the list the cursor is advanced under «"+pc+"», whether or not the list ended with a line break: a header comment that is directly followed by the package clause (`/* … */package p`, legal and left alone by gofmt) gets the keyword at comment.End()+1 in column-1 context — go/printer takes the comment for a doc comment and rewrites a multi-line one")
+			return true
+		})
+	}
+	e.Run.Analysed("cursor advances behind the decoration loop", n)
+}
